@@ -392,6 +392,18 @@ func ParentMain(id, tier string, seed int64) int {
 				fmt.Fprintf(os.Stderr, "DEBUG replay unit=%s case=%d r=%v d=%+v\n", v.Unit, v.Case, r, d)
 			}
 		}
+		if !ok {
+			// the case may depend on state earlier cases of the unit left behind in the library
+			// (a cache, a shared buffer): replay the whole unit and look for the same signature
+			r, _ := runWorker(p, tier, v.Unit, tmp, 200000+i, nil, -1, time.Time{}, seed)
+			if r != nil {
+				for _, rv := range r.Violations {
+					if rv.Sig == v.Sig {
+						ok = true
+					}
+				}
+			}
+		}
 		if ok {
 			confirmed++
 		} else {
